@@ -652,10 +652,16 @@ impl<'a> History<'a> {
 				self.emit(f.payer, "I2", s2);
 				let inc = f.s1.as_ref().map(|s| s.offset.clone());
 				self.check_offset_leak(f.payer, "I2", s2, inc.as_ref());
-				if !repeat {
+				let first = !repeat;
+				if first {
 					self.flights[fi].s2 = Some(s2.clone());
 				}
 				self.stat("op:process-invoice");
+				// an invoice the wallet pays itself: sometimes the invoice half is finalized right away, before the
+				// paying half has been reserved
+				if first && f.payer == f.payee && rng.chance(1, 2) {
+					self.do_finalize(fi, rng);
+				}
 			}
 			Err(e) => self.stat(&format!("op:process-invoice-refused:{}", err_kind(e))),
 		}
@@ -678,11 +684,17 @@ impl<'a> History<'a> {
 		};
 		// a flight either side has cancelled is not completed (completing an invoice the payer has
 		// cancelled is the payer's cancel-after-handover, not a wallet decision)
-		if f.cancelled_payee || f.cancelled_payer {
+		// (an invoice the wallet pays itself: both halves are this wallet's, so it is the wallet's own business that the
+		// paying half is reserved - and still reserved - when the invoice half is finalized)
+		let self_paid = f.kind == Kind::Invoice && f.payer == f.payee;
+		if (f.cancelled_payee || f.cancelled_payer) && !(self_paid && !f.cancelled_payee) {
 			return;
 		}
-		if (f.kind == Kind::Send || f.kind == Kind::Invoice) && !f.locked {
+		if (f.kind == Kind::Send || f.kind == Kind::Invoice) && !f.locked && !self_paid {
 			return; // the documented flows reserve the payer's outputs before finalizing
+		}
+		if self_paid && (!f.locked || f.cancelled_payer) && !repeat {
+			self.stat("op:finalize-of-a-self-paid-invoice-whose-paying-half-is-not-reserved");
 		}
 		self.set_acct(wi, &acct);
 		let before = self.counts(wi);
